@@ -137,7 +137,11 @@ func (r *Report) Finish(verifDir string, meta propMeta, seed int, selftest any) 
 		}
 		return nil
 	}
-	vdir := filepath.Join(verifDir, "evidence", "violations")
+	evdir := filepath.Join(verifDir, "evidence")
+	if d := os.Getenv("BANDCHECK_EVIDENCE_DIR"); d != "" {
+		evdir = d
+	}
+	vdir := filepath.Join(evdir, "violations")
 	os.MkdirAll(vdir, 0o755)
 	// remove stale violation files of this property
 	if ents, err := os.ReadDir(vdir); err == nil {
@@ -233,8 +237,8 @@ func (r *Report) Finish(verifDir string, meta propMeta, seed int, selftest any) 
 		"wall_s": time.Since(r.start).Seconds(), "violations": nviol,
 	}
 	b, _ := json.MarshalIndent(ev, "", " ")
-	os.MkdirAll(filepath.Join(verifDir, "evidence"), 0o755)
-	if err := os.WriteFile(filepath.Join(verifDir, "evidence", r.Property+".json"), b, 0o644); err != nil {
+	os.MkdirAll(evdir, 0o755)
+	if err := os.WriteFile(filepath.Join(evdir, r.Property+".json"), b, 0o644); err != nil {
 		fmt.Printf("internal: cannot write evidence: %v\n", err)
 		return 1
 	}
